@@ -126,6 +126,44 @@ def sql_scripts():
 
 _DRIVER = []
 
+def sql_settings():
+    """bounded stand-in for SQLTransactionState.apply: every history of <= 5 SET / SAVEPOINT / ROLLBACK TO statements over two savepoint names against a reference stack"""
+    import immutables
+    TA = dbstate.TxAction
+    class U:
+        def __init__(self, action, sp_name=None, set_vars=None, is_local=False):
+            self.tx_action = action; self.sp_name = sp_name; self.frontend_only = bool(set_vars); self.set_vars = set_vars; self.is_local = is_local
+    def run(history):
+        st = dbstate.SQLTransactionState(in_tx=False, settings=immutables.Map(), in_tx_settings=None, in_tx_local_settings=None, savepoints=[])
+        st.apply(U(TA.START)); ref = []; val = None; n = 0
+        for op, name in history:
+            if op == 'set':
+                n += 1; val = ('v%d' % n,); st.apply(U(None, set_vars={'x': val}))
+            elif op == 'sp':
+                st.apply(U(TA.DECLARE_SAVEPOINT, name)); ref.append((name, val))
+            else:
+                idx = max([i for i, (nm, _) in enumerate(ref) if nm == name], default=None)
+                try: st.apply(U(TA.ROLLBACK_TO_SAVEPOINT, name)); ok = True; err = None
+                except errors.TransactionError as e: ok = False; err = str(e)
+                if idx is None:
+                    if ok: return 'ROLLBACK TO %s accepted although no such savepoint exists' % name
+                    return None
+                if not ok: return 'ROLLBACK TO SAVEPOINT %s rejected (%s) although the savepoint exists (live savepoints: %s)' % (name, err, [nm for nm, _ in ref])
+                del ref[idx + 1:]; val = ref[idx][1]
+                got = (st.in_tx_local_settings or {}).get('x')
+                if got != val: return 'after ROLLBACK TO %s the setting x is %r, expected %r' % (name, got, val)
+                if [s_[0] for s_ in st.savepoints] != [nm for nm, _ in ref]:
+                    return 'after ROLLBACK TO %s the live savepoints are %s, expected %s' % (name, [s_[0] for s_ in st.savepoints], [nm for nm, _ in ref])
+        return None
+    OPS = [('set', None), ('sp', 'a'), ('sp', 'b'), ('rb', 'a'), ('rb', 'b')]
+    n = 0
+    for L in range(1, 6):
+        for h in itertools.product(OPS, repeat=L):
+            n += 1
+            p = run(h)
+            if p: return n, dict(problem='SQL settings history %s: %s' % (' ; '.join(('%s %s' % (o, nm or '')).strip() for o, nm in h), p))
+    return n, None
+
 def run_history(hist, rnd, via_compiler=False):
     if via_compiler and not _DRIVER: _DRIVER.append(_compiler_driver())
     cs, base_schema = fresh_state()
@@ -255,6 +293,9 @@ def main():
     if not res['failure']:
         res['sql_scripts'], f = sql_scripts()
         if f: res['failure'] = dict(history=[], via='compiler.compile_sql_as_unit_group', **f)
+    if not res['failure']:
+        res['sql_settings_histories'], f = sql_settings()
+        if f: res['failure'] = dict(history=[], via='dbstate.SQLTransactionState.apply', **f)
     json.dump(res, open(out, 'w'), indent=1)
 
 if __name__ == '__main__':
